@@ -15,6 +15,7 @@ import math
 import numpy as np
 from hypothesis import strategies as st
 
+from vp import pbt
 from vp.pbt import SubCheck, HarnessError, represent
 from vp.ref import geometry as G
 
@@ -432,9 +433,19 @@ def oracle_geonet(case, rec):
     Ap = U + np.eye(n, dtype=np.int64) if not directed else None
 
     # node weights follow node_weight_type, initially and after every switch
+    hbits = int(pbt.case_hash(case)[:6], 16)
     for step, t in enumerate(types):
         tag = str(t).lower()
         if step > 0:
+            # half of the switches happen after the caller assigned weights
+            # of their own (the geographic type must take over again)
+            if (hbits >> step) & 1:
+                ok, _ = rec.call("assign_custom_node_weights", setattr, net,
+                                 "node_weights", 0.5 + 0.25 * np.arange(n))
+                if ok:
+                    rec.label("custom_weights_then_type" if
+                              t != types[step - 1] else
+                              "custom_weights_then_same_type")
             ok, _ = rec.call("set_node_weight_type", net.set_node_weight_type,
                              t)
             if not ok:
